@@ -459,6 +459,33 @@ class Walk:
         raise _PyErr('TypeError', 'object is not iterable')
 
     def _builtin(self, name, av, kv, e, fi, depth):
+        if name in ('min', 'max', 'sorted') and set(kv) <= {'key', 'default', 'reverse'} and len(av) == 1 and not (name == 'sorted' and 'default' in kv) \
+                and not (name != 'sorted' and 'reverse' in kv):
+            # first minimum / maximum under the key (Python's documented tie rule), stable sort; numbers only as keys
+            items = [x for x in self._iter(av[0])]
+            key = kv.get('key')
+            if key is not None and not isinstance(key, _Closure):
+                raise Undecided(f'{fi.qualname}: {name}() with a key that is not a lambda')
+            ks = [x if key is None else self._apply(key, [x], {}, depth) for x in items]
+            if not all(isinstance(k_, _NUM) and not isinstance(k_, bool) for k_ in ks):
+                if any(k_ is None for k_ in ks):
+                    raise _PyErr('TypeError', f'{name}() key / element None is not orderable')
+                raise Undecided(f'{fi.qualname}: {name}() over keys that are not numbers')
+            if name == 'sorted':
+                rev = kv.get('reverse', False)
+                if not isinstance(rev, bool):
+                    raise Undecided(f'{fi.qualname}: sorted(reverse=<non-bool>)')
+                order = sorted(range(len(items)), key=lambda i_: ks[i_], reverse=rev)
+                return [items[i_] for i_ in order]
+            if not items:
+                if 'default' in kv:
+                    return kv['default']
+                raise _PyErr('ValueError', f'{name}() arg is an empty sequence')
+            best = 0
+            for i_ in range(1, len(items)):
+                if (ks[i_] < ks[best]) if name == 'min' else (ks[i_] > ks[best]):
+                    best = i_
+            return items[best]
         if kv:
             raise Undecided(f'{fi.qualname}: keyword arguments to builtin {name}')
         if name == 'next' and len(av) in (1, 2):
@@ -1371,6 +1398,9 @@ _MERGED = ("\tif strict:\n\t\tmatches = find_matches(zip_strict(ref_genomes, dis
 _NS_SPLIT = ("\tif not strict:\n\t\tif closest_match.matched_taxon is None:\n\t\t\treturn ClassifierResult(success=True, predicted_taxon=None, primary_match=None, closest_match=closest_match)\n"
              "\t\treturn ClassifierResult(success=True, predicted_taxon=closest_match.matched_taxon, primary_match=closest_match, closest_match=closest_match)\n")
 VARIANTS = [
+    V('matching taxon chosen as the tightest matching threshold (seeded C03e)', 'B', _C, _MT_LOOP, "\twithin = [t for t in taxon.ancestors(incself=True) if t.distance_threshold is not None and d <= t.distance_threshold]\n\treturn min(within, key=lambda t: t.distance_threshold, default=None)\n", 'D1'),
+    V('E: matching taxon as the first of the matching lineage members', 'E', _C, _MT_LOOP, "\twithin = [t for t in taxon.ancestors(incself=True) if t.distance_threshold is not None and d <= t.distance_threshold]\n\treturn next(iter(within), None)\n"),
+    V('E: matching taxon by a stable sort on a constant key', 'E', _C, _MT_LOOP, "\twithin = [t for t in taxon.ancestors(incself=True) if t.distance_threshold is not None and d <= t.distance_threshold]\n\treturn min(within, key=lambda t: 0, default=None)\n"),
     V('query() replaces given parameters by defaults (test inverted)', 'B', 'src/gambit/query.py', "\tif params is None:\n\t\tparams = QueryParams(**kw)\n\telif kw:", "\tif params is not None:\n\t\tparams = QueryParams(**kw)\n\telif kw:", 'D6'),
     V('query() always builds default parameters', 'B', 'src/gambit/query.py', "\tif params is None:\n\t\tparams = QueryParams(**kw)\n\telif kw:", "\tparams = QueryParams(**kw)\n\tif kw:", 'D6'),
     V('E: guard clause for the default parameters', 'E', 'src/gambit/query.py', "\tif params is None:\n\t\tparams = QueryParams(**kw)\n\telif kw:", "\tif params is None:\n\t\tparams = QueryParams(**kw)\n\tif params is not None and kw and False:"),
